@@ -368,8 +368,16 @@ func (maddr Multiaddr) MarshalJSON() ([]byte, error) {
 
 // UnmarshalJSON parses a cluster Multiaddr from the JSON representation.
 func (maddr *Multiaddr) UnmarshalJSON(data []byte) error {
-	maddr.Multiaddr, _ = multiaddr.NewMultiaddr("/ip4/127.0.0.1") // null multiaddresses not allowed
-	return maddr.Multiaddr.UnmarshalJSON(data)
+	var mstr string
+	if err := json.Unmarshal(data, &mstr); err != nil {
+		return err
+	}
+	m, err := multiaddr.NewMultiaddr(mstr)
+	if err != nil {
+		return err
+	}
+	maddr.Multiaddr = m
+	return nil
 }
 
 // MarshalBinary returs the bytes of the wrapped multiaddress.
@@ -382,8 +390,12 @@ func (maddr Multiaddr) MarshalBinary() ([]byte, error) {
 func (maddr *Multiaddr) UnmarshalBinary(data []byte) error {
 	datacopy := make([]byte, len(data)) // This is super important
 	copy(datacopy, data)
-	maddr.Multiaddr, _ = multiaddr.NewMultiaddr("/ip4/127.0.0.1") // null multiaddresses not allowed
-	return maddr.Multiaddr.UnmarshalBinary(datacopy)
+	m, err := multiaddr.NewMultiaddrBytes(datacopy)
+	if err != nil {
+		return err
+	}
+	maddr.Multiaddr = m
+	return nil
 }
 
 // Value returns the wrapped multiaddr.Multiaddr.
